@@ -351,10 +351,13 @@ package mapping
 //@ func UnmarshalTomlReader
 //@   property C17
 //@   ghost at after ReadAll#0: rd = ret0
+//@   call ReadAll#0: assert arg_r == r
 //@   call UnmarshalTomlBytes#0: assert sameSlice(arg_content, rd) && arg_v == v && sameSlice(arg_opts, opts)
 //@ func UnmarshalYamlReader
 //@   property C17
 //@   ghost at after ReadAll#0: rd = ret0
+// (the whole reader is read: no size cap that would silently parse a prefix)
+//@   call ReadAll#0: assert arg_r == reader
 //@   call UnmarshalYamlBytes#0: assert sameSlice(arg_content, rd) && arg_v == v && sameSlice(arg_opts, opts)
 
 // an optional embedded struct is all-or-nothing: once any of its fields was supplied, success means that no field that is
